@@ -285,6 +285,7 @@ func TestVerifC05Shapes(t *testing.T) {
 		g.MapOf(g.PtrTo(g.L(g.Int8))), g.MapOf(g.PtrTo(g.L(g.String))), g.MapOf(g.SliceOf(g.L(g.Int8))), g.MapOf(g.SliceOf(g.L(g.String))),
 		g.MapOf(g.SliceOf(st())), g.MapOf(st()), g.MapOf(g.PtrTo(st())), g.MapOf(g.MapOf(g.L(g.Int8))), g.MapOf(g.MapOf(g.L(g.String))),
 		g.IntMapOf(g.L(g.String)), g.IntMapOf(g.L(g.Int8)),
+		g.AnyT(), g.SliceOf(g.AnyT()), g.MapOf(g.AnyT()), g.MapOf(g.SliceOf(g.AnyT())), g.SliceOf(g.MapOf(g.AnyT())),
 		st(), g.PtrTo(st()),
 		g.StructOf(g.F("A", "a", g.SliceOf(g.L(g.Int8)), g.Opts{Optional: true}), g.F("B", "b", g.MapOf(g.L(g.String)), g.Opts{Optional: true})),
 	}
